@@ -223,7 +223,10 @@ func (c *SCIONClient) measureClockOffsetSCION(ctx context.Context, mtrcs *scionC
 	var ntsreq nts.Packet
 	if c.Auth.NTSEnabled {
 		ntsreq, requestID = nts.NewRequestPacket(ntskeData)
-		nts.EncodePacket(&buf, &ntsreq)
+		err = nts.EncodePacket(&buf, &ntsreq)
+		if err != nil {
+			return time.Time{}, 0, err
+		}
 	}
 
 	var scionLayer slayers.SCION
